@@ -45,7 +45,7 @@ RULES = [
   (r'bitstr_ext::(byte_to_dump_char|cstr_word)', r'call:unwrap', r'from_u32', '-', 'argument is a u8 widened to u32: every value below 0x100 is a Unicode scalar value'),
   (r'bitstr_ext::dump_bitstr_at', r'Overflow\(Mul\)', r'', '-', 'ncols is the constant 8 at both call sites (word_dump, word_dump_at): 16*8*8'),
   (r'bitstr_ext::fmt_bitstr_dump', r'Overflow\(Add\)', r'', 'Lt(phi(', 'pos advances by the width (<= 8) of each iter8 item and stays <= end'),
-  (r'bitstr_ext::hex_to_bitstr', r'call:str-index', r'', '-', 'from_hex_str fails at char index k only after k characters that are hex digits or ASCII whitespace (one byte each): k is also the byte offset and a char boundary'),
+  (r'bitstr_ext::hex_to_bitstr', r'call:str-index', r'', '@hex-prefix-is-ascii', 'from_hex_str fails at char index k only after k characters that are hex digits or ASCII whitespace (one byte each): k is also the byte offset and a char boundary'),
   (r'bitstr_ext::nulbytestr_peek', r'Overflow\(Add\)', r'', '-', 'len sums the widths of the iter8 items of the rest of the input (<= its bit length); start + len <= end'),
   (r'bitstr_ext::nulbytestr_peek', r'call:unwrap', r'Bitstr::read', '-', 'len <= rest.len() (sum of its own item widths), so read(len) is Some'),
   (r'bitstr_ext::random_bits', r'call:unwrap', r'Bitstr::read', 'Gt(Rem(', 'the buffer has upper_bound_index(n) bytes >= n bits'),
